@@ -176,7 +176,15 @@ class Ctx:
         if not events:
             return {}
         nshards = max(1, min(nshards, (len(events) + 19) // 20))
-        shards = [events[i::nshards] for i in range(nshards)]
+        if 'trace' in events[0]:
+            # stateful traces: keep every trace on one shard, in order
+            shards = [[] for _ in range(nshards)]
+            for ev in events:
+                shards[ev['trace'] % nshards].append(ev)
+            shards = [sh for sh in shards if sh]
+            nshards = len(shards)
+        else:
+            shards = [events[i::nshards] for i in range(nshards)]
         d = tempfile.mkdtemp(prefix='val_', dir=self.tmp)
         t = time.time()
 
